@@ -1,2 +1,13 @@
 #!/bin/sh
-exit 0
+# MANIFEST.setup_cmd: build the framework from files on disk only (offline).
+set -e
+cd "$(dirname "$0")"
+export GOFLAGS=-mod=mod GOPROXY=off
+unset GOSUMDB GOTOOLCHAIN || true
+mkdir -p harness/bin evidence replays .build
+cp /repo/go.sum harness/go.sum 2>/dev/null || true
+(cd harness && go build -o bin/factx ./cmd/factx)
+./harness/bin/factx -repo "${VERIF_REPO:-/repo}" -out lean/Gomjml/Gen
+(cd lean && lake build Gomjml driver)
+(cd harness && go build -tags verif -o bin/hx ./cmd/hx)
+echo "setup ok"
